@@ -13,6 +13,7 @@ The worktree is restored afterwards."""
 import json, os, re, shutil, subprocess, sys, time
 
 ROOT = os.path.dirname(os.path.dirname(os.path.abspath(__file__)))
+RUN_ROOT = os.environ.get("VERIF_ROOT_OVERRIDE", ROOT)   # a frozen copy of /verif, so that concurrent edits do not interfere
 ENV = dict(os.environ, GOFLAGS="-mod=mod", GOPROXY="off", GOSUMDB="off", GOTOOLCHAIN="local")
 
 def sh(cmd, cwd, timeout=3600, env=ENV):
@@ -70,7 +71,7 @@ def main():
         meta["checks"] = {}
         for c in checks:
             t0 = time.time()
-            rc, out = sh(["./check", c, "--tier", os.environ.get("TIER", "quick")], ROOT, timeout=3600,
+            rc, out = sh(["./check", c, "--tier", os.environ.get("TIER", "quick")], RUN_ROOT, timeout=3600,
                          env=dict(ENV, VERIF_REPO=wt, VERIF_SCRATCH="seed"))
             viol = [l for l in out.split("\n") if l.startswith("VIOLATION")]
             viol.sort(key=lambda l: "no-failing-input-found" in l)      # a concrete replay first
